@@ -377,6 +377,151 @@ class Agg:
         return {"reproduced": not agree, "rules_file": rules, "data": data, "compliant": sorted(comp), "not_compliant": sorted(failed), "exit": rc}
 
     # ------------------------------------------------------------------------------------------
+    # index sites: every `v[i]` (Vec / slice Index<usize>) on every path satisfies i < len(v), with `len`,
+    # `is_empty` and indexing modelled consistently per value
+    # ------------------------------------------------------------------------------------------
+    INDEX_FUNCS = [
+        ("operators::contained_in", r"(?:(?:rules::eval::)?operators::)?contained_in", ""),
+        ("operators::EqOperation::compare", r"(?:rules::eval::)?operators::<impl at guard/src/rules/eval/operators\.rs:\d+:\d+: \d+:\d+>::compare", r"_1: &(?:operators::)?EqOperation"),
+        ("eval::each_lhs_compare", r"(?:(?:rules::)?eval::)?each_lhs_compare", ""),
+    ]
+
+    def index_sites(self):
+        for label, fre, a1 in self.INDEX_FUNCS:
+            try:
+                ex = self.exec(fre, {}, log=("index",), unroll=1, first_arg_re=a1, max_paths=20000)
+            except Untranslatable as e:
+                self.ob.items.append({"obligation": f"{label}/index-in-bounds", "describe": str(e), "verdicts": {},
+                                      "status": "inconclusive", "model": None})
+                continue
+            self.fns.append(label)
+            bad = []
+            n = 0
+            for p in ex.paths:
+                for e in calls(p, "index"):
+                    if len(e[2]) == 2 and e[2][1][0] == "int":
+                        n += 1
+                        bad.append(f"(and {pc_term(p.pc)} (not (< {e[2][1][1]} {ex.len_of(e[2][0])})))")
+            # the index event is logged when the call is made, so the path condition up to that point is what guards it:
+            # use only the prefix of the path condition that existed at the call (events carry no pc; conservative: whole pc)
+            c = self.discharge(f"{label}/index-in-bounds", ex, bad,
+                               f"{label}: every `v[i]` on every path ({n} index events) has i < len(v) (len / is_empty / index modelled per value)")
+            if c:
+                c["replay"] = self.replay_in_empty(c) if "contained_in" in label else {"reproduced": False}
+                c["reproduced"] = c["replay"].get("reproduced", False)
+                self.candidates.append(c)
+
+    def replay_in_empty(self, cand):
+        exe = self.cli()
+        if not exe:
+            return {"reproduced": False, "note": "native build failed"}
+        for rules, data in [("rule t {\n  L in []\n}\n", '{"L":\n [1, 2]}\n'),
+                            ("rule t {\n  L in M\n}\n", '{"L":\n [1, 2], "M": []}\n'),
+                            ("rule t {\n  L not in []\n}\n", '{"L":\n [1, 2]}\n')]:
+            d = tempfile.mkdtemp(prefix="cfnverif_replay_")
+            try:
+                open(os.path.join(d, "r.guard"), "w").write(rules)
+                open(os.path.join(d, "d.json"), "w").write(data)
+                p = subprocess.run([exe, "validate", "-r", os.path.join(d, "r.guard"), "-d", os.path.join(d, "d.json")],
+                                   stdout=subprocess.PIPE, stderr=subprocess.STDOUT, text=True, timeout=120)
+            finally:
+                shutil.rmtree(d, ignore_errors=True)
+            if p.returncode == 101 and "index out of bounds" in p.stdout:
+                return {"reproduced": True, "rules_file": rules, "data": data, "exit": 101,
+                        "panic": [l for l in p.stdout.splitlines() if "panicked" in l or "index out of bounds" in l][:2]}
+        return {"reproduced": False}
+
+    # ------------------------------------------------------------------------------------------
+    # prefix negation must reach the binary path of the clause evaluator (C03): on every path of
+    # eval_guard_access_clause that calls binary_operation, flipping `gac.negation` must be able to change what is
+    # passed to / done with the comparison (otherwise `not X == v` means the same as `X == v`)
+    # ------------------------------------------------------------------------------------------
+    def flat_terms(self, v, out):
+        if v is None:
+            return
+        if v[0] in ("int", "bool"):
+            out.append(v[1])
+        elif v[0] == "enum":
+            out.append(v[2])
+            for pv in v[3].values():
+                self.flat_terms(pv, out)
+        elif v[0] == "tuple":
+            for x in v[1]:
+                self.flat_terms(x, out)
+        elif v[0] == "struct":
+            for x in v[2].values():
+                self.flat_terms(x, out)
+        elif v[0] == "variant":
+            for x in v[3]:
+                self.flat_terms(x, out)
+
+    def gac_negation(self):
+        def m_evalres(ex, argv):
+            return ex.fresh_result(ex.opq(), "evr")
+        ex = self.exec(r"(?:(?:rules::)?eval::)?eval_guard_access_clause",
+                       {"unary_operation": m_evalres, "binary_operation": m_evalres, "query": m_evalres,
+                        "resolve_function": m_evalres, "is_unary": lambda ex, a: ("bool", ex.fresh("Bool", "unary"))},
+                       unroll=1, max_paths=20000)
+        self.fns.append("rules::eval::eval_guard_access_clause (negation flow on the binary path)")
+        a1 = ex.arg_env.get("_1")
+        neg = ex.proj.get((a1[1], ".1")) if a1 and a1[0] == "opaque" else None
+        label = "eval_guard_access_clause/negation-reaches-binary-path"
+        bin_paths = [p for p in ex.paths if calls(p, "binary_operation")]
+        if not bin_paths:
+            self.ob.items.append({"obligation": label, "describe": "no path calls binary_operation (function restructured)", "verdicts": {},
+                                  "status": "inconclusive", "model": None})
+            return
+        N = neg[1] if neg and neg[0] == "bool" else None
+        dep_queries = []
+        if N is not None:
+            for p in bin_paths:
+                terms = []
+                for e in calls(p, "binary_operation"):
+                    for av in e[2]:
+                        self.flat_terms(av, terms)
+                self.flat_terms(p.ret, terms)
+                terms += p.pc
+                sub = lambda t: re.sub(re.escape(N) + r"(?![\w!])", f"(not {N})", t)
+                diffs = [f"(not (= {t} {sub(t)}))" for t in terms if N in t]
+                if diffs:
+                    dep_queries.append("(or " + " ".join(diffs) + ")")
+        goal = "(or " + " ".join(dep_queries) + ")" if dep_queries else "false"
+        # the property holds iff some binary path can tell negation = true from negation = false: expect SAT
+        script_decls = ex.decls
+        st = self.ob.check(label, script_decls, ex.side, goal,
+                           "some path of eval_guard_access_clause through binary_operation passes / branches on a value that changes "
+                           "when gac.negation is flipped (prefix `not` is not ignored on binary clauses)", expect="refuted")
+        item = self.ob.items[-1]
+        if st != "witness-ok":
+            # both solvers: no dependency at all -> prefix negation cannot influence binary clauses
+            if all(v == "unsat" for v in item["verdicts"].values()):
+                item["status"] = "refuted"
+                item["replay"] = self.replay_binary_not(item)
+                item["reproduced"] = item["replay"].get("reproduced", False)
+                self.candidates.append(item)
+        else:
+            item["status"] = "proved"
+
+    def replay_binary_not(self, cand):
+        exe = self.cli()
+        if not exe:
+            return {"reproduced": False, "note": "native build failed"}
+        data = '{"X":\n 1}\n'
+        cases = [("not X == 1", "FAIL"), ("not X == 2", "PASS"), ("not X > 0", "FAIL"), ("not X < 0", "PASS"),
+                 ("not X in [1, 2]", "FAIL"), ("not X != 1", "PASS")]
+        out = []
+        for clause, exp in cases:
+            rules = f"rule t {{\n  {clause}\n}}\n"
+            rc, rep, err = self.run_structured(exe, rules, [data])
+            if not (rep and isinstance(rep, list) and rep):
+                continue
+            r = rep[0]
+            got = "PASS" if "t" in r.get("compliant", []) else ("SKIP" if "t" in r.get("not_applicable", []) else "FAIL")
+            out.append({"clause": clause, "data": {"X": 1}, "expected": exp, "observed": got})
+        bad = [o for o in out if o["expected"] != o["observed"]]
+        return {"reproduced": bool(bad), "cases": out}
+
+    # ------------------------------------------------------------------------------------------
     # native replays: inputs synthesised from the solver's model
     # ------------------------------------------------------------------------------------------
     def cli(self):
@@ -505,6 +650,8 @@ SITES = {
     "C04": ["eval_rules_file", "memo_sites"],
     "C06": ["evaluate_against_data_input", "evaluate_rule"],
     "C01": ["eval_rule", "eval_when_condition_block"],
+    "C08": ["index_sites"],
+    "C03": ["gac_negation"],
 }
 
 
